@@ -41,12 +41,22 @@ def argsL : List Name → Chars
   | [] => []
   | a :: as => nameL a ++ moreArgsL as
 
+/-- `async ` in front of an asynchronous function definition -/
+def asyncL (isAsync : Bool) : Chars := if isAsync then "async ".toList else []
+
+/-- `...` after the last argument of a function definition that collects the remaining arguments -/
+def laaL (laa : Bool) : Chars := if laa then "...".toList else []
+
+/-- `, index` of a `for` loop with an index variable -/
+def ixL : Option Name → Chars
+  | none => []
+  | some i => ',' :: ' ' :: nameL i
+
 /-- **the canonical spelling of one classified line**, no indentation, single blanks -/
 def printLineL (pe : Expr → Chars) : Line → Chars
   | .assign n e => nameL n ++ (' ' :: '=' :: ' ' :: pe e)
   | .funcBegin n args laa isAsync =>
-      (if isAsync then "async ".toList else []) ++ ("function ".toList ++ (nameL n ++ ('(' :: (argsL args ++
-        ((if laa then "...".toList else []) ++ [')', ':'])))))
+      asyncL isAsync ++ ("function ".toList ++ (nameL n ++ ('(' :: (argsL args ++ (laaL laa ++ [')', ':'])))))
   | .funcEnd => "endfunction".toList
   | .ifBegin c => "if ".toList ++ (pe c ++ [':'])
   | .elif c => "elif ".toList ++ (pe c ++ [':'])
@@ -54,9 +64,7 @@ def printLineL (pe : Expr → Chars) : Line → Chars
   | .endif => "endif".toList
   | .whileBegin c => "while ".toList ++ (pe c ++ [':'])
   | .endwhile => "endwhile".toList
-  | .forBegin v none vals => "for ".toList ++ (nameL v ++ (" in ".toList ++ (pe vals ++ [':'])))
-  | .forBegin v (some i) vals =>
-      "for ".toList ++ (nameL v ++ (',' :: ' ' :: (nameL i ++ (" in ".toList ++ (pe vals ++ [':'])))))
+  | .forBegin v i vals => "for ".toList ++ (nameL v ++ (ixL i ++ (" in ".toList ++ (pe vals ++ [':']))))
   | .endfor => "endfor".toList
   | .break_ => "break".toList
   | .continue_ => "continue".toList
@@ -132,8 +140,7 @@ def exprs : Line → List Expr
 def names : Line → List Name
   | .assign n _ | .label n | .jump n _ => [n]
   | .funcBegin n args _ _ => n :: args
-  | .forBegin v none _ => [v]
-  | .forBegin v (some i) _ => [v, i]
+  | .forBegin v i _ => v :: i.toList
   | _ => []
 
 /-- **side condition of one line** -/
@@ -141,6 +148,8 @@ def LineOK (pe : Expr → Chars) (l : Line) : Bool :=
   (names l).all NameOK && (exprs l).all (fun e => ExprTextOK (pe e)) &&
   (match l with
    | .exprStmt e => CallTextOK (pe e)
+   -- `else:` is the else statement, not a label
+   | .label n => nameL n != "else".toList
    -- a line feed in the URL would split the line; `>` ends the `<…>` form early
    | .include url sys => !url.toList.contains '\n' && (!sys || !url.toList.contains '>')
    | _ => true)
@@ -148,5 +157,9 @@ def LineOK (pe : Expr → Chars) (l : Line) : Bool :=
 /-- **side condition of a structured program**: every line of its rendering is printable -/
 def ProgPrintable (pe : Expr → String) (B : List SStmt) : Bool :=
   (Lower.renderB B).all (LineOK fun e => (pe e).toList)
+
+/-- every expression of the program satisfies `ok` (instantiated with the printable class of the expression printer) -/
+def ProgExprsOK (ok : Expr → Bool) (B : List SStmt) : Bool :=
+  (Lower.renderB B).all fun l => (exprs l).all ok
 
 end PrintScript
